@@ -545,11 +545,7 @@ key2index._pattern = re.compile(r"^[1-9][0-9]*$")
 
 def completely_flatten(array):
     if isinstance(array, ak.partition.PartitionedArray):
-        out = []
-        for partition in array.partitions:
-            for outi in completely_flatten(partition):
-                out.append(outi)
-        return tuple(out)
+        return completely_flatten(array.toContent())
 
     elif isinstance(array, virtualtypes):
         return completely_flatten(array.array)
